@@ -8,6 +8,7 @@ import (
 	"fmt"
 	"go/ast"
 	"go/token"
+	"sort"
 	"strings"
 )
 
@@ -906,6 +907,266 @@ func setterIR(fd *ast.FuncDecl) string {
 		case *ast.ReturnStmt:
 			if len(t.Results) == 1 && exprStr(t.Results[0]) == "this" {
 				out = append(out, ".retThis")
+			} else {
+				out = append(out, ".unknown")
+			}
+		default:
+			out = append(out, ".unknown")
+		}
+	}
+	return lst(out)
+}
+
+// accessorIR transcribes a one-line accessor (Size, IsEmpty, IsFull, GetFirstKey … GetLastValue) statement by
+// statement; the lock prologue is skipped, anything not recognised is `.unknown`.
+func accessorIR(fd *ast.FuncDecl) string {
+	if fd == nil {
+		return "[]"
+	}
+	retTok := func(r *ast.ReturnStmt) string {
+		if len(r.Results) != 1 {
+			return ".unknown"
+		}
+		switch exprStr(r.Results[0]) {
+		case "this.count":
+			return ".retCount"
+		case "(this.count==0)":
+			return ".retCountZero"
+		case "((this.max>0)&&(this.max<=this.count))":
+			return ".retIsFull"
+		case "this.header.link_next.key":
+			return ".retEndKey .front"
+		case "this.header.link_prev.key":
+			return ".retEndKey .back"
+		case "this.header.link_next.value":
+			return ".retEndValue .front"
+		case "this.header.link_prev.value":
+			return ".retEndValue .back"
+		}
+		return ".unknown"
+	}
+	var out []string
+	for _, st := range fd.Body.List {
+		switch t := st.(type) {
+		case *ast.ExprStmt:
+			if stmtCalls(t) != "this.lock.Lock()" {
+				out = append(out, ".unknown")
+			}
+		case *ast.DeferStmt:
+			if stmtCalls(t) != "this.lock.Unlock()" {
+				out = append(out, ".unknown")
+			}
+		case *ast.IfStmt:
+			tok := ".unknown"
+			if t.Init == nil && t.Else == nil && exprStr(t.Cond) == "(this.count==0)" && len(t.Body.List) == 1 {
+				if r, ok := t.Body.List[0].(*ast.ReturnStmt); ok && len(r.Results) == 1 {
+					switch exprStr(r.Results[0]) {
+					case "this.NONE", "nil", "\"\"", "0":
+						tok = ".retAbsentIfEmpty"
+					}
+				}
+			}
+			out = append(out, tok)
+		case *ast.ReturnStmt:
+			out = append(out, retTok(t))
+		default:
+			out = append(out, ".unknown")
+		}
+	}
+	return lst(out)
+}
+
+// ---------------------------------------------------------------- enumerator objects
+
+// recvTypes lists the receiver types of the file that have a HasMoreElements method, with their methods.
+func enumTypes(f *ast.File) (names []string, ms map[string]map[string]*ast.FuncDecl) {
+	ms = map[string]map[string]*ast.FuncDecl{}
+	for _, d := range f.Decls {
+		fd, ok := d.(*ast.FuncDecl)
+		if !ok || fd.Body == nil || fd.Recv == nil || len(fd.Recv.List) != 1 {
+			continue
+		}
+		t := fd.Recv.List[0].Type
+		if s, ok := t.(*ast.StarExpr); ok {
+			t = s.X
+		}
+		id, ok := t.(*ast.Ident)
+		if !ok {
+			continue
+		}
+		if ms[id.Name] == nil {
+			ms[id.Name] = map[string]*ast.FuncDecl{}
+		}
+		ms[id.Name][fd.Name.Name] = fd
+	}
+	for n, m := range ms {
+		if m["HasMoreElements"] != nil {
+			names = append(names, n)
+		}
+	}
+	sort.Strings(names)
+	return
+}
+
+// isSkipLoop: `for this.entry == nil && this.index > 0 { this.index--; this.entry = this.table[this.index] }`
+func isSkipLoop(st ast.Stmt) bool {
+	f, ok := st.(*ast.ForStmt)
+	if !ok || f.Init != nil || f.Post != nil || f.Cond == nil || exprStr(f.Cond) != "((this.entry==nil)&&(this.index>0))" || len(f.Body.List) != 2 {
+		return false
+	}
+	d, ok := f.Body.List[0].(*ast.IncDecStmt)
+	if !ok || d.Tok != token.DEC || exprStr(d.X) != "this.index" {
+		return false
+	}
+	return stmtAssign(f.Body.List[1:2]) == "this.entry=this.table[this.index]"
+}
+
+// takeBody: `[this.lastReturned = this.entry;] e := this.entry|this.lastReturned; this.entry = e.<next>; <returns of projections of e>`
+func takeBody(body []ast.Stmt, next string) bool {
+	i := 0
+	src := "this.entry"
+	if i < len(body) && stmtAssign(body[i:i+1]) == "this.lastReturned=this.entry" {
+		src = "this.lastReturned"
+		i++
+	}
+	if i >= len(body) {
+		return false
+	}
+	a, ok := body[i].(*ast.AssignStmt)
+	if !ok || a.Tok != token.DEFINE || len(a.Lhs) != 1 || exprStr(a.Lhs[0]) != "e" || (exprStr(a.Rhs[0]) != src && exprStr(a.Rhs[0]) != "this.entry") {
+		return false
+	}
+	i++
+	if i >= len(body) || (stmtAssign(body[i:i+1]) != "this.entry=e."+next && stmtAssign(body[i:i+1]) != "this.entry=e."+strings.Title(next)) {
+		return false
+	}
+	i++
+	if i != len(body)-1 {
+		return false
+	}
+	return projReturn(body[i])
+}
+
+// projReturn: `return e.key|e.value|e|e.GetKey()|e.GetValue()` or a switch on the enumerator's kind whose KEYS case
+// returns the key and whose VALUES case returns the value
+func projReturn(st ast.Stmt) bool {
+	isKey := func(s string) bool { return s == "e.key" || s == "e.GetKey()" || s == "e.Key" || s == "e.Get()" }
+	isVal := func(s string) bool { return s == "e.value" || s == "e.GetValue()" || s == "e.Value" }
+	one := func(ss []ast.Stmt) string {
+		if len(ss) == 1 {
+			if r, ok := ss[0].(*ast.ReturnStmt); ok && len(r.Results) == 1 {
+				return exprStr(r.Results[0])
+			}
+		}
+		return "?"
+	}
+	switch t := st.(type) {
+	case *ast.ReturnStmt:
+		if len(t.Results) != 1 {
+			return false
+		}
+		s := exprStr(t.Results[0])
+		return isKey(s) || isVal(s) || s == "e"
+	case *ast.IfStmt: // `if this.isKey { return e.key } else { return e.value }` / `if this.isEntry { return e } else { return e.GetValue() }`
+		el, ok := t.Else.(*ast.BlockStmt)
+		if !ok || t.Init != nil {
+			return false
+		}
+		a, b := one(t.Body.List), one(el.List)
+		switch exprStr(t.Cond) {
+		case "this.isKey":
+			return isKey(a) && isVal(b)
+		case "this.isEntry":
+			return a == "e" && isVal(b)
+		}
+		return false
+	case *ast.SwitchStmt:
+		tag := exprStr(t.Tag)
+		if tag != "this.Type" && tag != "this.rtype" && tag != "this.Rtype" {
+			return false
+		}
+		for _, c := range t.Body.List {
+			cc := c.(*ast.CaseClause)
+			r := one(cc.Body)
+			if len(cc.List) == 0 { // default: the entry itself (or the zero of a typed Next on an entry enumerator)
+				if r != "e" && r != "0" && r != "\"\"" && r != "nil" {
+					return false
+				}
+				continue
+			}
+			for _, l := range cc.List {
+				switch exprStr(l) {
+				case "ELEMENT_TYPE_KEYS", "1":
+					if !isKey(r) {
+						return false
+					}
+				case "ELEMENT_TYPE_VALUES", "2":
+					if !isVal(r) {
+						return false
+					}
+				case "ELEMENT_TYPE_ENTRIES", "3":
+					if r != "e" && r != "0" && r != "\"\"" && r != "nil" {
+						return false
+					}
+				default:
+					return false
+				}
+			}
+		}
+		return true
+	}
+	return false
+}
+
+// enumIR transcribes HasMoreElements / Next* of an enumerator object.
+func enumIR(fd *ast.FuncDecl) string {
+	var out []string
+	body := fd.Body.List
+	for i, st := range body {
+		switch t := st.(type) {
+		case *ast.ForStmt:
+			if isSkipLoop(t) {
+				out = append(out, ".skipLoop")
+			} else {
+				out = append(out, ".unknown")
+			}
+		case *ast.IfStmt:
+			tok := ".unknown"
+			if t.Init == nil && t.Else == nil {
+				switch exprStr(t.Cond) {
+				case "(this.entry!=nil)":
+					if takeBody(t.Body.List, "next") {
+						tok = ".ifEntryTake"
+					}
+				case "this.HasMoreElements()", "((this.entry!=nil)&&(this.parent.header!=this.entry))":
+					if takeBody(t.Body.List, "link_next") {
+						tok = ".ifHasMoreTake"
+					}
+				}
+			}
+			out = append(out, tok)
+		case *ast.ReturnStmt:
+			if len(t.Results) != 1 {
+				out = append(out, ".unknown")
+				continue
+			}
+			switch s := exprStr(t.Results[0]); {
+			case s == "(this.entry!=nil)":
+				out = append(out, ".retHasEntry")
+			case s == "((this.entry!=nil)&&(this.parent.header!=this.entry))" || s == "((this.parent.header!=this.entry)&&(this.entry!=nil))":
+				out = append(out, ".retNotHeader")
+			case s == "this.NextElement()" && len(body) == 1:
+				out = append(out, ".retNextElement")
+			case i == len(body)-1 && s == "this.parent.NONE":
+				out = append(out, ".exhausted")
+			case i == len(body)-1 && (s == "0" || s == "\"\"" || s == "nil"):
+				out = append(out, ".exhausted")
+			default:
+				out = append(out, ".unknown")
+			}
+		case *ast.ExprStmt:
+			if c, ok := t.X.(*ast.CallExpr); ok && exprStr(c.Fun) == "panic" && i == len(body)-1 {
+				out = append(out, ".exhausted")
 			} else {
 				out = append(out, ".unknown")
 			}
